@@ -1,4 +1,4 @@
-CONSTANTS Discoveries = {"flag", "cwd", "parent", "grandparent"}
+CONSTANTS Discoveries = {"flag", "cwd", "parent", "grandparent", "flag_over_cwd", "flag_over_parent"}
 INIT Init
 NEXT Next
 INVARIANTS Emit ModelAgrees
